@@ -1,5 +1,6 @@
 SPECIFICATION Spec
 CONSTANTS
+  EarlyOrder = "cc-first"
   Clients = {"c1", "c2"}
   Backlog = 1
   Mius = {128, 200}
@@ -9,6 +10,7 @@ CONSTANTS
   MaxAcc = 2
   ListenerPresent = TRUE
 INVARIANT Agreement
+INVARIANT NoEarlyLoss
 INVARIANT BacklogOk
 INVARIANT RefusedRight
 INVARIANT OnePerPeer
